@@ -37,6 +37,14 @@ impl<'a> TxFreelist {
         }
     }
 
+    // Whether this transaction has already freed the page.
+    pub(crate) fn is_freed(&self, page_id: PageID) -> bool {
+        self.inner
+            .pending_pages
+            .get(&self.meta.tx_id)
+            .map_or(false, |pages| pages.contains(&page_id))
+    }
+
     pub(crate) fn allocate<'b>(&'b mut self, bytes: u64) -> Result<&'a mut Page> {
         assert!(
             bytes >= (size_of::<Page>() as u64),
